@@ -151,6 +151,7 @@ PIDS = [0x4B, 0xC3, 0xE1]                # DATA1 (msb 0), DATA0 (ends 11), OUT (
 STUFFY = [0x00, 0xFF, 0x80, 0xFE, 0x7F, 0xAA, 0xFC, 0x3F]
 DL = 96                                   # ticks after the end of EOP by which a packet must be fully delivered (24 bit times)
 LONG_GAP = 26                             # bit times of idle that let every pending delivery finish (> DL/4)
+MIN_SLIP_DISTANCE = 100                   # bit cells between two slips of the same sign: 1 tick in 400 = 0.25 %
 
 
 def _seqs(first, rest, maxlen):
@@ -183,15 +184,18 @@ def configs(tier):
     for p in ([0] if q else range(4)):
         out.append(dict(name=f"tx-junk-p{p}", mode="tx", phase=p, first="pid", maxlen=2 if q else 3,
                         gaps=[0, 1, 2, 3, 6], junk=[0xFF]))
-    # --- receive
-    out.append(dict(name="rx-seq", mode="rx", phase=0, pkts="seq", slips=0, gaps=[2, 3, LONG_GAP], depth=None))
+    # --- receive: sequences of packets (all 4 sampling phases, minimum and long gaps), bounded depth
+    out.append(dict(name="rx-seq", mode="rx", phase=0, pkts="seq", plan="seq", gaps=[2, LONG_GAP], depth=2 if q else 3))
+    # --- receive: closure (unbounded sequences) over a two-packet alphabet: every pointer position of the clock-domain-crossing FIFOs
+    out.append(dict(name="rx-wrap", mode="rx", phase=0, pkts="wrap", plan="seq", gaps=[2, LONG_GAP], depth=None))
+    # --- receive: one bit cell one tick long/short at every position of the packet (SYNC and EOP included)
     for sgn in (+1, -1):
-        out.append(dict(name=f"rx-slip{sgn:+d}", mode="rx", phase=0, pkts="slip", slips=sgn, gaps=[LONG_GAP],
-                        depth=1 if q else 2))
-    out.append(dict(name="rx-slip-shortgap", mode="rx", phase=0, pkts="slipshort", slips=2, gaps=[2], depth=2))
+        out.append(dict(name=f"rx-slip{sgn:+d}", mode="rx", phase=0, pkts="slip", plan="slip", sign=sgn, depth=None))
     if not q:
         for p in (1, 2, 3):
-            out.append(dict(name=f"rx-seq-p{p}", mode="rx", phase=p, pkts="seq", slips=0, gaps=[2, LONG_GAP], depth=None))
+            out.append(dict(name=f"rx-seq-p{p}", mode="rx", phase=p, pkts="seq", plan="seq", gaps=[2, LONG_GAP], depth=2))
+        for sgn in (+1, -1):
+            out.append(dict(name=f"rx-long-2slips{sgn:+d}", mode="rx", phase=0, pkts="long", plan="long", sign=sgn, depth=1))
     # --- turn-around
     out.append(dict(name="mixed", mode="mixed", phase=0, depth=None))
     if not q:
@@ -218,8 +222,10 @@ def rx_packets(kind, tier):
         if tier != "quick":
             ps += [(GOOD, (0xC3, 0x00, 0xFF, 0xAA), None), (GOOD, (0xE1, 0x7F, 0x3F), None)]
         return ps
-    if kind == "slipshort":
-        return [(GOOD, (0xD2,), None), (GOOD, (0xE1, 0xFC), None)]
+    if kind == "wrap":
+        return [(GOOD, (0xD2,), None), (GOOD, (0xC3, 0xFF, 0xFF), None)]
+    if kind == "long":
+        return [(GOOD, (0xC3, 0x00, 0xFF, 0xFF, 0xAA, 0x7F, 0xFE, 0x01, 0x80, 0xFF, 0xFC, 0x3F, 0x55, 0xFF, 0xFF, 0x00, 0x12, 0x34), None)]
     if kind == "mixed":
         return [(GOOD, (0xD2,), None), (GOOD, (0xC3, 0xFF, 0xFC), None), (BAD, (0xC3, 0xFF, 0x00), 0)]
     raise KeyError(kind)
@@ -261,15 +267,35 @@ class PhySpec(Spec):
                         acts.append(("tx", s, g, j))
         if m == "rx":
             self.packets = rx_packets(cfg["pkts"], tier)
-            for i, (kind, bs, skip) in enumerate(self.packets):
-                ncell = len(encode(bs, skip))
+            plan = cfg["plan"]
+            self._stage_acts = None
+            if plan == "seq":
+                for i in range(len(self.packets)):
+                    for off in range(4):
+                        for g in cfg["gaps"]:
+                            acts.append(("rx", i, off, (), g, ""))
+            elif plan == "slip":
+                # stage 0 -pre-> 1;  0/1 -slip,long gap-> 3 (end);  0 -slip,min gap-> 2 -post-> 3
+                sg = cfg["sign"]
+                pre = [("rx", 0, off, (), 2, "pre") for off in range(4)]
+                if tier != "quick": pre += [("rx", 1, off, (), g, "pre") for off in range(4) for g in (2, LONG_GAP)]
+                post = [("rx", i, off, (), LONG_GAP, "post") for i in (0, 1) for off in range(4)]
+                slipL, slip2 = [], []
+                for i, (kind, bs, skip) in enumerate(self.packets):
+                    for off in range(4):
+                        for sl in [()] + [((pos, sg),) for pos in range(len(encode(bs, skip)))]:
+                            slipL.append(("rx", i, off, sl, LONG_GAP, "slip"))
+                            slip2.append(("rx", i, off, sl, 2, "slip2"))
+                self._stage_acts = {0: pre + slipL + slip2, 1: slipL, 2: post, 3: []}
+                acts = self._stage_acts[0]
+            elif plan == "long":
+                sg = cfg["sign"]
+                n = len(encode(self.packets[0][1]))
                 for off in range(4):
-                    for g in cfg["gaps"]:
-                        if cfg["slips"] in (0, 2): acts.append(("rx", i, off, -1, 0, g))
-                        if cfg["slips"]:
-                            for sg in ((+1, -1) if cfg["slips"] == 2 else (cfg["slips"],)):
-                                for pos in range(ncell):
-                                    acts.append(("rx", i, off, pos, sg, g))
+                    acts.append(("rx", 0, off, (), LONG_GAP, "slip"))
+                    for i in range(n):
+                        for j in range(i + MIN_SLIP_DISTANCE, n):
+                            acts.append(("rx", 0, off, ((i, sg), (j, sg)), LONG_GAP, "slip"))
         if m == "mixed":
             self.packets = rx_packets("mixed", tier)
             for s in [(0xD2,), (0xC3, 0xFF, 0xFC), (0x4B, 0x00)]:
@@ -278,7 +304,7 @@ class PhySpec(Spec):
             for i in range(len(self.packets)):
                 for off in range(4):
                     for g in (2, LONG_GAP):
-                        acts.append(("rx", i, off, -1, 0, g))
+                        acts.append(("rx", i, off, (), g, ""))
         self._acts = acts
 
     # ------------------------------------------------------------------------------------------------ DUT
@@ -336,15 +362,15 @@ class PhySpec(Spec):
         if m in ("rx", "mixed"):
             g += ["rx:good-delivered", "rx:stuffed-delivered"]
             if any(k == BAD for k, _, _ in self.packets): g += ["rx:stuff-error-packet-played"]
-            if m == "rx" and self.cfg["slips"]: g += ["rx:slip-delivered"]
-            if m == "rx" and 2 in self.cfg["gaps"]: g += ["rx:delivery-overlaps-next-packet"]
+            if m == "rx" and self.cfg["plan"] in ("slip", "long"): g += ["rx:slip-delivered"]
+            if m == "rx" and self.cfg["plan"] != "long": g += ["rx:delivery-overlaps-next-packet"]
         return g
 
     # ------------------------------------------------------------------------------------------------ exploration
     def env0(self):
         if self.mode == "static": return (0, 0, 0, 0, 0, 0)
         if self.mode == "tx": return ()
-        return (0, ())            # (rx_active at the last 12 MHz edge, queue of packets not yet fully delivered)
+        return (0, (), 0)         # (rx_active at the last 12 MHz edge, queue of packets not yet fully delivered, stage of the plan)
 
     def canon(self, env):
         if self.mode == "static" and self.phase == 3: return ()
@@ -354,13 +380,15 @@ class PhySpec(Spec):
         if self.mode == "mixed" and env[1]:
             # the function/host logic above the PHY answers a packet only after it has been delivered completely
             return [a for a in self._acts if a[0] == "rx"]
+        if self.mode == "rx" and self._stage_acts: return self._stage_acts[env[2]]
         return self._acts
 
     def label(self, a):
         if a[0] == "tx": return ["tx", [f"{b:02x}" for b in a[1]], f"gap={a[2]}", f"junk={a[3]:02x}"]
         if a[0] == "rx":
             k, bs, skip = self.packets[a[1]]
-            return ["rx", k, [f"{b:02x}" for b in bs], f"phase={a[2]}", f"slip={a[4]:+d}@{a[3]}" if a[3] >= 0 else "noslip", f"gap={a[5]}bit"]
+            return ["rx" + ("-" + a[5] if a[5] else ""), k, [f"{b:02x}" for b in bs], f"phase={a[2]}",
+                    " ".join(f"cell{pos}:{d:+d}tick" for pos, d in a[3]) or "noslip", f"gap={a[4]}bit"]
         return ["op_mode=%d tx_valid=%d tx_data=%02x term_select=%d dp_pd=%d dm_pd=%d" % a[1:]]
 
     def apply(self, cur, env, a):
@@ -439,7 +467,7 @@ class PhySpec(Spec):
         if ends_with_stuff(data): self.cover["tx:stuff-bit-before-eop"] += 1
         self.outcomes.add((len(w) - len(w.lstrip(".")), len(data)))
         if self.mode == "tx": return ()
-        return (ract, env[1])
+        return (ract, env[1], env[2])
 
     def _tx_classify(self, data, burst, exp, accepted, w):
         det = dict(bytes=_hx(data), expected=_rle(exp), got=_rle(burst), tx_ready_sampled_at=accepted)
@@ -468,25 +496,36 @@ class PhySpec(Spec):
         raise Violation("tx-bytes-dropped-or-duplicated", det)
 
     # ------------------------------------------------------------------------------------------------ receive
+    _NEXT_STAGE = {"": 0, "pre": 1, "slip": 3, "slip2": 2, "post": 3}
+
     def _rx(self, cur, env, a):
-        _, pi, off, spos, sdelta, gapbits = a
+        _, pi, off, slips, gapbits, role = a
         kind, data, skip = self.packets[pi]
         p = self.phase
+        model = cur.model
+        if getattr(self, "_vecs", None) is None:
+            self._vecs = {lv: model.vec(dp_i=lv[0], dn_i=lv[1]) for lv in LV.values()}
+            # clock enable masks per step index (same rule as Design.clocks; the amaranth.sim replay re-checks them)
+            self._masks = [sum(1 << bit for bit, dom in enumerate(model.clk_domains) if t % model.clocks[dom][0] == model.clocks[dom][1])
+                           for t in range(4)]
+        vecs, masks = self._vecs, self._masks
         syms = encode(data, skip)
+        sl = dict(slips)
         wave = []
         for k, s in enumerate(syms):
-            wave += [LV[s]] * (4 + (sdelta if k == spos else 0))
+            wave += [vecs[LV[s]]] * (4 + sl.get(k, 0))
+        idle = vecs[(1, 0)]
         end = off + len(wave)
         total = end + 4 * gapbits
         total += (-total) % 4
-        prev, q = env
+        prev, q, stage = env
         q = [list(e) for e in q]      # entry: [kind, bytes, idx (-1 = rx_active not yet risen), err@edge, err@any tick, age]
+        step = cur.step_vec
         for t in range(total):
             if t == off: q.append([kind, data, -1, 0, 0, -1])
             if t == end: q[-1][5] = 0
-            dp, dn = wave[t - off] if off <= t < end else (1, 0)
-            o = cur.step(dp_i=dp, dn_i=dn)
-            edge = (t % 4 == p)
+            o = step(wave[t - off] if off <= t < end else idle, masks[t & 3])
+            edge = ((t & 3) == p)
             if o.rx_error and q:
                 e = q[-1]             # rx_error is not delayed by the clock-domain crossing: it belongs to the newest packet on the wire
                 if e[0] == GOOD:
@@ -520,12 +559,13 @@ class PhySpec(Spec):
                             raise Violation("rx-bytes-short", dict(packet=_hx(e[1]), delivered=e[2], action=self.label(a)))
                         self.cover["rx:good-delivered"] += 1
                         if n_stuffed(e[1]): self.cover["rx:stuffed-delivered"] += 1
-                        if spos >= 0 and e[1] == data and not q: self.cover["rx:slip-delivered"] += 1
+                        if slips and not q: self.cover["rx:slip-delivered"] += 1
+                        self.outcomes.add(("latency", e[5] // 4))
                     else:
                         if not e[3]:
                             if e[4]:
                                 raise Violation("rx-stuff-error:pulse-missed-by-12mhz-clock",
-                                                dict(packet=_hx(e[1]), note="rx_error pulsed for 48 MHz ticks that are not a 12 MHz clock edge", action=self.label(a)))
+                                                dict(packet=_hx(e[1]), note="rx_error pulsed only on 48 MHz ticks that are not a 12 MHz clock edge", action=self.label(a)))
                             raise Violation("rx-stuff-error:not-reported", dict(packet=_hx(e[1]), action=self.label(a)))
                         self.cover["rx:stuff-error-reported"] += 1
                 prev = act
@@ -538,7 +578,7 @@ class PhySpec(Spec):
         if kind == BAD: self.cover["rx:stuff-error-packet-played"] += 1
         if q: self.cover["rx:delivery-overlaps-next-packet"] += 1
         self.outcomes.add((kind, len(data), len(q)))
-        return (prev, tuple(tuple(e) for e in q))
+        return (prev, tuple(tuple(e) for e in q), self._NEXT_STAGE[role] if self.mode == "rx" else 0)
 
 
 def _hx(bs):
